@@ -292,6 +292,9 @@ TEMPLATES = [
 ]
 _TEMPLATES = [(re.compile(p, re.S), k) for p, k in TEMPLATES]
 
+# the model's recursion bounds / impossible states: never a verdict
+NO_VERDICT = ('outOfFuel', 'fuelAlias', 'fuelAncestors', 'fuelImports', 'internal')
+
 # one message template for two sites: the tag of an enumerated subtype that repeats a field name / an earlier tag
 SAME_MESSAGE = {'tagFieldClash': 'dupField'}
 
@@ -516,7 +519,7 @@ def judge_case(ck, files, origin, asts, reply, real=None, flags=()):
         ck.stat('comp.real_crash(C03)')
         return st
     mk = reply.get('kind')
-    if mk in ('outOfFuel', 'internal'):
+    if mk in NO_VERDICT:
         # the model's recursion bound / an impossible state: never a verdict, always a defect of the model
         ck.disagree('comp.compile', case, st[0], reply)
         return st
@@ -613,7 +616,7 @@ def run_batch(ck, batch):
     # the hypothesis of the theorems (`compile fs = .ok api`) on every case: how often they speak
     for hy in ck.driver([dict(r, op='comp.hyps') for r in reqs]):
         ck.hist('comp.hyps.compile_ok', str(hy.get('compile_ok')))
-        if hy.get('compile_ok') is False and hy.get('kind') in ('outOfFuel', 'internal'):
+        if hy.get('compile_ok') is False and hy.get('kind') in NO_VERDICT:
             ck.stat('comp.model_' + hy['kind'])
     out = []
     for files, origin, asts, req, flags in prepared:
